@@ -42,6 +42,15 @@ DEF_POOL = ["None", "True", "-1", "1.5", "'s'", "\"it's\"", "b'x'", "()", "(1, 2
             "f(1, k=2)", "lambda a: a", "...", "a + b", "not a", "a if b else c", "x[1]", "-x", "[]", "{}", "1j", "x.y.z()",
             "'a' 'b'", "0x10", "a and b", "a < b", "f(*a, **k)", "x[1:2]", "(yield_)", "a * b + c", "f'{x}'"]
 
+# constants of equal value and different type (bool / int / float / complex): each must be displayed as written,
+# whatever was displayed before in the same process
+CONST_POOL = ["True", "1.0", "1", "False", "0.0", "0", "0j", "-0.0", "1j", "-1.0", "-1"]
+# lambda defaults whose own parameters are named like a parameter of the function ({n} = that name): the lambda's
+# parameters are not parameters of the function
+LAMBDA_POOL = ["lambda {n}: {n}", "lambda {n}=0: {n}", "lambda q, {n}: q", "lambda *{n}: {n}", "lambda *, {n}: {n}", "lambda **{n}: {n}",
+               "f(lambda {n}: 0)", "{{'k': lambda {n}, q: q}}", "[lambda {n}: {n}, 1]", "lambda {n}: lambda {m}: {n}",
+               "(lambda {n}: {n})(1)", "g(key=lambda {n}, {m}=1: {m})"]
+
 CASES: List[Dict[str, Any]] = []          # set before forking the pool: workers receive index ranges only
 RICH = False
 
@@ -74,7 +83,15 @@ def exprs_for(rec: Dict[str, Any], rng: Optional[random.Random]) -> Dict[str, An
             elif a == "string":
                 ann[i] = rng.choice([x for x in ANN_POOL if x[0] != x[1]])
             if has_def:
-                dflt[i] = rng.choice(DEF_POOL)
+                u = rng.random()
+                if u < 0.3:
+                    # a name that collides: preferably an annotated parameter of this very function
+                    annotated = [j for j, p in enumerate(rec["params"], 1) if p[2] != "none"] or list(range(1, len(rec["params"]) + 1))
+                    dflt[i] = rng.choice(LAMBDA_POOL).format(n=f"p{rng.choice(annotated)}", m=f"p{rng.choice(annotated)}x")
+                elif u < 0.6:
+                    dflt[i] = rng.choice(CONST_POOL)
+                else:
+                    dflt[i] = rng.choice(DEF_POOL)
     r = rec["ret"]
     if r == "None":
         ret: Optional[Tuple[str, Optional[str]]] = ("None", None)
@@ -383,7 +400,13 @@ def run(ctx: Ctx) -> int:
     tot = run_cases(ctx, cases, rich=False)
     ctx.extra["layouts_exhaustive"] = len(cases)
     sim_tot = None
-    if not ctx.quick:
+    if ctx.quick:
+        # a fifth of the layouts once more with pool expressions (lambda defaults with colliding parameter names,
+        # equal-valued constants of different types in both orders within one module, nested string annotations ...)
+        rich_cases = [c for i, c in enumerate(cases) if i % 5 == ctx.seed % 5]
+        sim_tot = run_cases(ctx, rich_cases, rich=True)
+        ctx.extra["layouts_with_pool_expressions"] = len(rich_cases)
+    else:
         r2 = ctx.tlc("Signature", cfg_text(7), workers=1, check=True, simulate="num=6000", depth=12, seed=ctx.seed, timeout=1500)
         design += [v for v in r2.violated if v not in design]
         seen: set = set()
